@@ -26,7 +26,8 @@ type FileSpec struct {
 	Mode uint32 `json:"mode"` // os.FileMode bits
 	// Kind: plain (Payload) | stream (valid compressed Stream) | cut (Stream
 	// truncated to Cut bytes) | damaged (Stream with a seeded fault) | garbage
-	// (Payload bytes that are no compressed file) | symlink (Target)
+	// (Payload bytes that are no compressed file) | symlink (Target) | hardlink
+	// (a second name of the regular file Target)
 	Kind    string               `json:"kind"`
 	Payload *sim.Payload         `json:"payload,omitempty"`
 	Stream  *checks.StreamRecipe `json:"stream,omitempty"`
@@ -214,9 +215,16 @@ func buildWorld(c *GCase) *simos.World {
 			w.Symlink(f.Name, f.Target)
 		case "dir":
 			w.Nodes[f.Name] = &simos.Node{Mode: os.ModeDir | 0o755}
+		case "hardlink":
+			// second pass: the file it names may come later in the list
 		default:
 			data, _, _, _ := fileBytes(f)
 			w.Put(f.Name, data, os.FileMode(f.Mode))
+		}
+	}
+	for i := range c.Files {
+		if f := &c.Files[i]; f.Kind == "hardlink" {
+			w.Link(f.Name, f.Target) // a second name of the regular file Target
 		}
 	}
 	return w
